@@ -210,6 +210,9 @@ def run_concrete(db, target: str, inputs: dict, fe=None):
     c = db.get(target)
     is_h = target.startswith("harness:")
     h = db.harnesses[target.split(":", 1)[1]] if is_h else None
+    if c is not None and c.observes:
+        # the clause talks about results of external calls (socket / poller / clock): a concrete run would make the REAL calls
+        return {"verdict": "not-evaluable", "reason": "contract observes results of external calls; not replayable outside a stand-in"}
     modname = h.module if is_h else target.split(":")[0]
     mod = _import_module(modname)
     b = Builder(modname)
